@@ -202,6 +202,9 @@ def _integration(ctx, pydrex, case):
             ctx.case(case, nontrivial=True)
         except Exception as e:
             ctx.case(case, nontrivial=False)
+            if drive.solver_gave_up(case, e):
+                ctx.count("solver_gave_up_under_user_tolerances")
+                return
             ctx.check("integration_does_not_raise", False, case, key=f"raises/{type(e).__name__}",
                       exc=f"{type(e).__name__}: {str(e)[:200]}")
     ctx.count("rhs_evaluations_monitored", mon.n_rhs)
